@@ -234,7 +234,10 @@ fn judge_c02(ctx: &mut Ctx, cfg: &Xcfg, si: &comm::ScriptInfo, x: &Xres) {
     }
     // ---- input: exactly once, in order, then EOF
     if let Some(inp) = &cfg.input {
-        if let Some((len, h, eof)) = x.child_in() {
+        if !x.child_done() {
+            // the child was still working through its script when the harness had to end it: its report is incomplete
+            ctx.count("inputs_not_judged(child did not finish its script)", 1);
+        } else if let Some((len, h, eof)) = x.child_in() {
             ctx.count("input_bytes_verified", len as i64);
             if si.reads_all {
                 if len != inp.len() as u64 || h != comm::hash(inp) {
